@@ -265,8 +265,9 @@ func checkC06(p *Prog, r *Report) {
 		}
 		nWriter++
 		construct := "Encrypt(" + exprString(s.Call.Args[0]) + ",…)"
-		x := p.Term(s.Call.Args[1])
-		if p.Term(s.Call.Args[0]).Key() != x.Key() {
+		fa0 := p.FactsOf(fi)
+		x := fa0.AtNode(s.Call).Resolve(p.Term(s.Call.Args[1]))
+		if fa0.AtNode(s.Call).Resolve(p.Term(s.Call.Args[0])).Key() != x.Key() {
 			r.bad("C06.I4", fi.Name, p.Pos(s.Call), construct, "encryption is not in place (dst != src): the transmitted buffer would not be the checksummed one", "")
 			continue
 		}
@@ -283,7 +284,7 @@ func checkC06(p *Prog, r *Report) {
 			if !ok || !c.Dominates(pt, encPt) {
 				return
 			}
-			dst := p.Term(call.Args[0])
+			dst := fa.AtNode(call).Resolve(p.Term(call.Args[0]))
 			if dst.Op != "slice" || dst.Args[0].Key() != x.Key() || dst.Args[1] == nil || !dst.Args[1].IsConst() || dst.Args[1].Int != nonceSize {
 				return
 			}
